@@ -216,6 +216,28 @@ func (o *Output) advanceSpaceAware(paragraphDir di.Direction) fixed.Int26_6 {
 	return o.Advance - lastG.endLetterSpacing
 }
 
+// trailingSpaceAdvance returns the advance of the white space glyph ending the run
+// (the one [advanceSpaceAware] ignores), or zero if the run does not end with
+// white space or if its direction is not the paragraph direction.
+func (o *Output) trailingSpaceAdvance(paragraphDir di.Direction) fixed.Int26_6 {
+	L := len(o.Glyphs)
+	if L == 0 || paragraphDir.Progression() != o.Direction.Progression() {
+		return 0
+	}
+	lastG := o.Glyphs[L-1]
+	if o.Direction.Progression() != di.FromTopLeft {
+		lastG = o.Glyphs[0]
+	}
+	if o.Direction.IsVertical() {
+		if lastG.Height == 0 {
+			return lastG.YAdvance
+		}
+	} else if lastG.Width == 0 {
+		return lastG.XAdvance
+	}
+	return 0
+}
+
 // RecalculateAll updates the all other fields of the Output
 // to match the current contents of the Glyphs field.
 // This method will fail with UnimplementedDirectionError if the Output
